@@ -209,6 +209,15 @@ def install_externals(reg):
         return [(p, NONE)]
     E["builtins.setattr"] = b_setattr
 
+    def b_getattr(ex, p, pos, kw, node):
+        obj, name = pos[0], z3.simplify(pos[1])
+        if not (isinstance(obj, PyObj) and z3.is_string_value(name)):
+            raise OutOfSubset("getattr with non-constant name / non-object")
+        attr = name.as_string()
+        # with a default the call is total; the attribute (if present) wins
+        return [(p, ex.load_attr(p, obj, attr))]
+    E["builtins.getattr"] = b_getattr
+
     def b_super(ex, p, pos, kw, node):
         return [(p, p.new_obj("builtins.super", origin="fresh"))]
     E["builtins.super"] = b_super
